@@ -5,9 +5,8 @@ from fractions import Fraction
 import numpy as np
 
 from .c17_meshes import mesh_json, rand_mesh1, rand_tags
-from .c18_geom import F, cell_points, centroid, cols, facet_points, measures, valid
+from .c18_geom import F, cell_points, centroid, cols, cover_counts, facet_points, measures, valid
 
-KEY_DUP = 'stale-boundaries:remove_duplicate_nodes'
 
 
 class Fail(Exception):
@@ -138,6 +137,18 @@ def op_transform(m, rng):
     return M, info
 
 
+def check_tiling(rng, parent, children, what, k):
+    """random rational points of the (convex) parent: never in the interior of two children, always in the closure
+    of at least one (points that happen to lie on an inner face are in no interior and in two closures: accepted)"""
+    for _ in range(3):
+        w = [Fraction(int(x)) for x in rng.integers(1, 50, size=len(parent))]
+        tot = sum(w)
+        x = tuple(sum(wi * v[d] for wi, v in zip(w, parent)) / tot for d in range(len(parent[0])))
+        strict, closed = cover_counts(children, x)
+        need(strict <= 1, what + ':children-overlap', f'a point of parent {k} lies inside {strict} children')
+        need(closed >= 1, what + ':children-leave-gap', f'a point of parent {k} lies in no child')
+
+
 def op_to_meshtri(m, rng):
     style = 'x' if rng.random() < 0.5 else None
     nt = m.t.shape[1]
@@ -156,6 +167,7 @@ def op_to_meshtri(m, rng):
         for c in ch:
             need(set(cols(M.p, M.t[:, c])) <= allowed, what + ':child-not-in-parent', f'child {c} of parent {k}')
         need(total([mb[c] for c in ch]) == ma[k], what + ':measure', f'children of parent {k} do not add up')
+        check_tiling(rng, par, [cols(M.p, M.t[:, c]) for c in ch], what, k)
     need(sorted(M.subdomains or {}) == sorted(m.subdomains or {}), what + ':subdomain-names', '')
     for nm, s in (m.subdomains or {}).items():
         want = sorted(int(v) + j * nt for v in np.asarray(s).tolist() for j in range(nch))
@@ -183,6 +195,7 @@ def op_to_meshtet(m, rng):
             need(set(cols(M.p, M.t[:, c])) <= par, what + ':child-not-in-parent', f'child {c} of parent {k}')
         if ma[k] is not None:
             need(total([mb[c] for c in ch]) == ma[k], what + ':measure', f'children of parent {k} do not add up')
+            check_tiling(rng, cols(m.p, m.t[:nv, k]), [cols(M.p, M.t[:, c]) for c in ch], what, k)
     return M, {}
 
 
@@ -324,7 +337,7 @@ def op_remove_duplicates(m, rng):
             continue                      # dropping a tag is allowed; carrying it to other facets is not
         gi = np.asarray(M.boundaries[nm])
         ok = gi.size == 0 or (gi.min() >= 0 and gi.max() < M.facets.shape[1])
-        need(ok and facet_points(M, gi) == facet_points(md, b), KEY_DUP,
+        need(ok and facet_points(M, gi) == facet_points(md, b), what + ':boundary',
              lambda: f'{nm}: carried-over boundary designates other facets')
     return M, {'input': mesh_json(md)}
 
